@@ -262,9 +262,10 @@ def parse_writer(evs, is_struct):
     cur_field = None
     while ev.peek() is not None:
         p = ev.next()
-        m = re.fullmatch(r"field\[(\w+)\]", p)
+        m = re.fullmatch(r"(?:for)?field\[(\w+)\]", p)
         if m:
-            cur_field = m.group(1)
+            if cur_field is None or p.startswith("forfield"):
+                cur_field = m.group(1)
             continue
         m = re.fullmatch(r"writer\.(add_str|add_quoted_string|add_integer|add_float|add_str_raw)\((.*)\)", p)
         if m:
@@ -289,7 +290,8 @@ def parse_writer(evs, is_struct):
                 depth_for = 0
             else:
                 items.append(("for:" * depth_for) + "struct")
-                fields.append(m.group(1))
+                fields.append(cur_field if cur_field else m.group(1))
+                cur_field = None
                 depth_for = 0
             continue
         if p in ("writer.add_group()", "writer.finish()"):
@@ -716,6 +718,11 @@ def run(root, cfg, log, repo="/repo"):
     lines = []
     for name in sorted(shipped):
         t = shipped[name]
+        if t["kind"] == "block":
+            # field names of the parameters (from the writer: `self.<field>`), one per parameter item
+            fl = t.get("writer", {}).get("fields", [])
+            if len(fl) >= len(t["items"]):
+                lines.append(f"fields {name} " + ",".join(str(x) for x in fl[:len(t['items'])]))
         if t["kind"] == "enum":
             lines.append(f"enum {name} " + " ".join(f"{i['tag']}:{i['vlo']}:{i['vhi']}" for i in t["items"]))
         elif t["kind"] == "block":
